@@ -39,7 +39,7 @@ def catalogue(present_kinds):
     for obj in ("none", "str", "track", "fake"):
         for how in ("add", "replace", "set"):
             out.append({"what": "wrong-object", "kind": "events", "how": how, "obj": obj})
-    for what in ("comment-too-long", "comment-non-cp1252"):
+    for what in ("comment-too-long", "comment-non-cp1252", "comment-with-NUL"):
         for kind in ("events", "data3D", "platCal"):
             how = "replace" if kind in pres else "add"
             for ln in ((256, 257, 300) if what == "comment-too-long" else (0,)):
